@@ -9,6 +9,8 @@ TRUSTED_BASE = [
 ]
 
 KANI_UNITS = {
+    "folds": {"name": "folds", "file": "src/interpreter/library/native/base.rs", "harness": "folds.harness.rs",
+              "modpath": "interpreter::library::native::base"},
     "valref": {"name": "valref", "file": "src/values.rs", "harness": "valref.harness.rs", "modpath": "values"},
     "macros": {"name": "macros", "file": "src/parser/macros.rs", "harness": "macros.harness.rs", "modpath": "parser::macros"},
     "values": {"name": "values", "file": "src/values.rs", "harness": "values.harness.rs", "modpath": "values"},
@@ -57,7 +59,7 @@ PROPS = {
     },
     "C07": {
         "verus": ["pair_pop", "values_num", "interp_tail", "repl_complete", "macro_transform", "lexer_pos", "base_cmp", "base_folds"],
-        "kani": ["values"], "native": ["panic_probe"],
+        "kani": ["values", "folds"], "native": ["panic_probe"],
         "level": "proof",
         "explanation": "Panic-freedom (no overflow, no failing unwrap/expect, no reachable todo!/unreachable!/panic!, no out-of-bounds index) "
                        "is proved per function for the named set: it is part of what Verus checks when it verifies a function body.",
@@ -128,7 +130,7 @@ PROPS = {
                         "rule X4: check_bracket_closed is instantiated at str::Chars, the type of its only call site (checked each run)"],
     },
     "C09": {
-        "verus": ["values_num", "base_folds"], "kani": ["values"], "native": [],
+        "verus": ["values_num", "base_folds"], "kani": ["values", "folds"], "native": [],
         "level": "proof",
         "explanation": "Every arithmetic operation of Number is proved against rational-arithmetic postconditions for ALL i32 "
                        "operands (Verus, mathematical integers) and for an abstract inexact type R (contagion by congruence); "
@@ -141,7 +143,7 @@ PROPS = {
                         "Rust's f32 + - * / abs floor ceil are the IEEE-754 binary32 operations"],
     },
     "C10": {
-        "verus": ["values_num", "base_cmp", "base_folds"], "kani": ["values"], "native": [],
+        "verus": ["values_num", "base_cmp", "base_folds"], "kani": ["values", "folds"], "native": [],
         "level": "proof",
         "explanation": "PartialEq::eq / PartialOrd::partial_cmp / exact_eqv of Number are proved to be the order of the rationals "
                        "on every pair of representations with positive denominators (all i32), and the comparison of the "
